@@ -6,7 +6,7 @@
 # Incremental (ninja). flock-serialised. Exit 2 on compile failure.
 set -u
 variant=${1:-verif}
-root=/verif/build
+root=$(cd "$(dirname "$0")/.." && pwd)/build
 dir=$root/repo-$variant
 mkdir -p "$root"
 exec 9>"$root/.lock-$variant"
